@@ -71,9 +71,10 @@ A_DStop(k, dd, b, adef) ==
                  \cup (IF b.dann = "same" THEN BOOLEAN ELSE {})
 \* The class and argparse parsers always take the sentence out again (prose preserved exactly); the docstring and function
 \* parsers leave it in.  A description that already carries the sentence (chains) may keep or lose it.
+\* With default text off every kind takes the sentence out, also one that came in with the description.
 A_DAnn(k, dd, b, adef) ==
-  IF b.dbase # "own" \/ adef = "absent" THEN {"no"}
-  ELSE {"no"} \cup (IF (dd /\ k \notin {"class", "argparse"}) \/ b.dann = "same" THEN {"same"} ELSE {})
+  IF b.dbase # "own" \/ adef = "absent" \/ ~dd THEN {"no"}
+  ELSE {"no"} \cup (IF k \notin {"class", "argparse"} \/ b.dann = "same" THEN {"same"} ELSE {})
 
 SlotOK(k, dd, b, a) ==
   /\ a.name = b.name
@@ -120,10 +121,15 @@ AllowedRets(k, dd, b) ==
 \* ------------------------------------------------------------------------
 \* whole descriptions
 \* ------------------------------------------------------------------------
+\* argparse writes no `default=` for an explicit None; its parser recovers the None once an earlier option had a default
+\* (not None) - so after such an option an explicit None must come back, not "absent"
+PriorDefault(ps, i) == \E j \in 1..(i - 1) : ps[j].def \notin {"absent", "none"}
+NoneRule(k, b, a, i) == (k = "argparse" /\ b.params[i].def = "none" /\ ~IsKw(b.params[i]) /\ PriorDefault(b.params, i)) => a.params[i].def = "none"
+
 IROK(k, dd, b, a) ==
   /\ a.doc = b.doc
   /\ Len(a.params) = Len(b.params)
-  /\ \A i \in 1..Len(b.params) : SlotOK(k, dd, b.params[i], a.params[i])
+  /\ \A i \in 1..Len(b.params) : SlotOK(k, dd, b.params[i], a.params[i]) /\ NoneRule(k, b, a, i)
   /\ RetOK(k, dd, b.ret, a.ret)
 
 RECURSIVE SeqProduct(_)
@@ -133,7 +139,8 @@ SeqProduct(ss) ==     \* all sequences s with s[i] \in ss[i]
 
 AllowedIR(k, dd, b) ==
   { IR(b.doc, ps, r) :
-      ps \in SeqProduct([i \in 1..Len(b.params) |-> AllowedSlots(k, dd, b.params[i])]),
+      ps \in { q \in SeqProduct([i \in 1..Len(b.params) |-> AllowedSlots(k, dd, b.params[i])]) :
+                 \A i \in 1..Len(q) : NoneRule(k, b, [params |-> q], i) },
       r \in AllowedRets(k, dd, b.ret) }
 
 \* ------------------------------------------------------------------------
